@@ -119,6 +119,7 @@ def chunks(tier):
     out += [("GV", i) for i in range(len(GV_SYSTEMS))]
     out += [("PT", orient) for orient in ORIENTATIONS]
     out += [("WS", i) for i in range(len(WS_SYSTEMS))]
+    out += [("BG",), ("DS",)]
     return out
 
 
@@ -502,6 +503,19 @@ def run_chunk(chunk, tier):
                 if any(init):
                     prebuilt_case(res, orient, kb, kn, chain, list(init))
         res.sample(dict(layer="PN", system="NaCl(s) written as " + orient, ksp_built_then_now=PN_KSP, lattice=PN_LATTICE), limit=1)
+    elif chunk[0] == "BG":
+        for ntags in (11, 12):
+            for sc in (0.0, 0.2, -0.2):
+                for chain in (("Log",), ("Log", "Lin")):
+                    for species_as in ("list+names", "list+array", "tuple+array"):
+                        big_case(res, ntags, sc, chain, species_as)
+        res.sample(dict(layer="BG", equilibria=list(BG_TAGS)), limit=1)
+    elif chunk[0] == "DS":
+        for orient in ORIENTATIONS:
+            for ksp in KSPS:
+                for init in itertools.product((0.0, 1.0, 3.0), (1.0, 3.0), (0.0, 2.0)):
+                    dissolved_case(res, orient, ksp, list(init))
+        res.sample(dict(layer="DS", what="result fed to dissolved() and used as x0"), limit=1)
     elif chunk[0] == "PT":
         _, orient = chunk
         for ksp, chain in itertools.product(PT_KSP, CHAINS):
@@ -687,6 +701,98 @@ def warm_start_case(res, tags, chain):
             prev = x
 
 
+BG_TAGS = ("water", "nh4", "h2co3", "hco3", "hac", "hf", "h3po4", "h2po4", "hpo4", "hso4", "agnh3", "cunh3")
+
+
+def big_case(res, ntags, sc, chain, species_as):
+    """a system of 11-12 equilibria (21-22 species) whose constants are defined through a reference state c*; the calculation starts
+    a few per cent of reaction extent away from it.  species_as: the species handed to EqSystem as a list or as a tuple, the
+    initial concentrations positionally (array) or by name"""
+    import numpy as np
+    from chempy import Equilibrium, Species
+    from chempy.equilibria import EqSystem
+
+    tags = BG_TAGS[:ntags]
+    idx = _idx(tags)
+    names = M.species_of(idx)
+    cstar = {n: (H2O if n == "H2O" else 10.0 ** (-2 - (j % 4)) * (1 + j / 10.0)) for j, n in enumerate(names)}
+    K = []
+    for i in idx:
+        q = 1.0
+        for k, nu in M.POOL[i][2].items():
+            q *= cstar[k] ** nu
+        for k, nu in M.POOL[i][1].items():
+            q /= cstar[k] ** nu
+        K.append(q)
+    sp = [Species.from_formula(n) for n in names]
+    es = EqSystem([Equilibrium(dict(M.POOL[i][1]), dict(M.POOL[i][2]), k) for i, k in zip(idx, K)], tuple(sp) if species_as.startswith("tuple") else list(sp))
+    init = np.array([cstar[n] for n in names])
+    for r, row in enumerate(M.stoich_rows(idx, names)):
+        ext = sc * min(cstar[n] for n, v in zip(names, row) if v) * (1 if r % 2 == 0 else -0.5)
+        init = init - ext * np.array(row, dtype=float)
+    init = [float(v) for v in init]
+    case = dict(layer="BG", ntags=ntags, sc=sc, chain=list(chain), species_as=species_as)
+    res.states += 1
+    res.transitions += 1
+    res.evaluations += 1
+    run = "root-big|%s|%s" % ("+".join(chain), species_as)
+    try:
+        if list(es.substances) != names:
+            raise ValueError("substances %r, given %r" % (list(es.substances), names))
+        arg = np.array(init) if species_as.endswith("array") else dict(zip(names, init))
+        x, sol, sane = es.root(arg, NumSys=_numsys(chain))
+        x, success, sane, exc = np.asarray(x, dtype=float), bool(sol["success"]), bool(sane), None
+    except Exception as e:
+        x, success, sane, exc = None, False, False, "EXC %s: %s" % (type(e).__name__, str(e)[:80])
+    claim = _claim(success, sane, exc)
+    kinds, mags = judge(names, idx, K, init, x) if claim == "success+sane" else ([], {})
+    if claim == "success+sane":
+        res.nontrivial += 1
+    _record(res, run, "%d equilibria, %d species, start %+.0f%% of an extent away from the reference state" % (len(tags), len(names), 100 * sc), case, claim, kinds, mags, x)
+    if claim != "success+sane":
+        # liveness of this slice: near its equilibrium the calculation must be claimed (otherwise the slice is vacuous)
+        res.violation("C08|%s|not-claimed-near-equilibrium" % run, "%s for %d equilibria started %+.0f%% of an extent away from equilibrium: %s" % (run, len(tags), 100 * sc, claim), case, claim, "success+sane")
+
+
+def dissolved_case(res, orient, ksp, init):
+    """a reported result fed on: to EqSystem.dissolved (what would the solution hold without the solid?) and as the starting guess of
+    the next calculation; the reported array itself stays the reported result"""
+    import numpy as np
+
+    es, names = build_precip(orient, ksp)
+    case = dict(layer="DS", orient=orient, ksp=ksp, init=list(init))
+    res.states += 1
+    res.transitions += 2
+    res.evaluations += 2
+    x, success, sane, exc = run_root(es, names, init, ("Log", "Lin"), False)
+    if _claim(success, sane, exc) != "success+sane" or judge_precip(init, x, ksp)[0]:
+        res.outcomes["dissolved:first-result-not-claimed"] += 1
+        return
+    res.nontrivial += 1
+    keep = np.array(x, dtype=float, copy=True)
+    bad = None
+    try:
+        d = np.asarray(es.dissolved(x), dtype=float)
+        want = np.array([keep[0] + keep[2], keep[1] + keep[2], 0.0])
+        if not np.allclose(d, want, rtol=1e-12, atol=1e-300):
+            bad = "dissolved(result) = %r, expected %r" % (d.tolist(), want.tolist())
+        elif not np.array_equal(np.asarray(x, dtype=float), keep):
+            bad = "dissolved(result) changed the result array itself: %r (was %r)" % (np.asarray(x).tolist(), keep.tolist())
+        else:
+            x2, sol2, sane2 = es.root(dict(zip(names, init)), x0=x, NumSys=_numsys(("Log", "Lin")))
+            if not np.array_equal(np.asarray(x, dtype=float), keep):
+                bad = "root(..., x0=result) changed the result array: %r (was %r)" % (np.asarray(x).tolist(), keep.tolist())
+            elif bool(sol2["success"]) and bool(sane2):
+                k2, m2 = judge_precip(init, x2, ksp)
+                if k2:
+                    bad = "root(..., x0=result) claims %r: %s" % (np.asarray(x2).tolist(), ", ".join(k2))
+    except Exception as e:
+        bad = "%s: %s" % (type(e).__name__, str(e)[:100])
+    res.outcomes["dissolved:%s" % ("ok" if bad is None else "WRONG")] += 1
+    if bad:
+        res.violation("C08|precip|result-fed-on|%s" % ("result-array-modified" if "changed the result" in bad else "wrong"), "NaCl(s) written as %s, Ksp=%g, init=%s: %s" % (orient, ksp, dict(zip(names, init)), bad), case, bad, None)
+
+
 GV_SYSTEMS = [("water", "nh4"), ("water", "hac"), ("nh4", "hac")]
 GV_VALUES = ([1e-4, 1e-2], [1e-6, 1e-4, 1e-2])
 
@@ -739,9 +845,13 @@ def grid_order_case(res, tags, a, b):
 
 # --------------------------------------------------------------------------------------------- replay
 def replay(case):
-    if case.get("layer") in ("PN", "GV", "PT", "WS", "HK"):
+    if case.get("layer") in ("PN", "GV", "PT", "WS", "HK", "BG", "DS"):
         res = Result()
-        if case["layer"] == "HK":
+        if case["layer"] == "BG":
+            big_case(res, case["ntags"], case["sc"], tuple(case["chain"]), case["species_as"])
+        elif case["layer"] == "DS":
+            dissolved_case(res, case["orient"], case["ksp"], case["init"])
+        elif case["layer"] == "HK":
             check_reassigned_constant(res, tuple(case["tags"]), case["j"], case["c"], case["entry"], case["factor"])
         elif case["layer"] == "PT":
             tiny_ksp_case(res, case["orient"], case["ksp"], tuple(case["chain"]), case["lat"])
